@@ -227,7 +227,7 @@ def build_harness(variant="default"):
 # running cases
 # ---------------------------------------------------------------------------------------------
 
-def _run_sharded(argv, lines, timeout, shards=None):
+def _run_sharded(argv, lines, timeout, shards=None, on_timeout=None):
     if not lines:
         return []
     n = shards or min(NPROC, max(1, len(lines) // 200))
@@ -239,6 +239,7 @@ def _run_sharded(argv, lines, timeout, shards=None):
         procs.append((p, ch))
     import threading
     outs = [None] * n
+    timed_out = [False] * n
 
     def work(i):
         p, ch = procs[i]
@@ -248,6 +249,7 @@ def _run_sharded(argv, lines, timeout, shards=None):
             p.kill()
             o, e = p.communicate()
             o = (o or "")
+            timed_out[i] = True
         outs[i] = (o.splitlines(), p.returncode, e)
 
     ths = [threading.Thread(target=work, args=(i,)) for i in range(n)]
@@ -262,13 +264,16 @@ def _run_sharded(argv, lines, timeout, shards=None):
         for j, idx in enumerate(idxs):
             if j < len(ol):
                 res[idx] = ol[j]
+            elif timed_out[i] and on_timeout:
+                res[idx] = on_timeout          # the shard ran out of wall-clock time: not evaluated
             else:
                 res[idx] = "crash rc=%s %s" % (rc, (err or "").strip().splitlines()[-1:] or "")
     return res
 
 
 def run_model(fam, lines, timeout=1500):
-    return _run_sharded(["sh", "-c", "ulimit -s unlimited 2>/dev/null || ulimit -s 1000000; exec %s %s" % (os.path.join(BUILD, "ocaml", "model"), fam)], lines, timeout)
+    return _run_sharded(["sh", "-c", "ulimit -s unlimited 2>/dev/null || ulimit -s 1000000; exec %s %s" % (os.path.join(BUILD, "ocaml", "model"), fam)], lines, timeout,
+                        on_timeout="skip model-shard-timeout")
 
 
 def run_impl(fam, lines, variant="default", timeout=1500, shards=None):
